@@ -881,8 +881,7 @@ class Layouter:
         occupying.sort(key=lambda x: x['addr'])
         for a, b in zip(occupying, occupying[1:]):
             if a['addr'] + a['size'] > b['addr']:
-                if a['muted'] or b['muted']:
-                    raise Unspecified('overlap involving a muted line')
+                # (a muted line keeps its addresses: it is a byte-producing line like any other, only absent from the image)
                 raise Reject('two lines occupy a common address')
         mem = {}
         for ln in occupying:
